@@ -61,12 +61,14 @@ def gen_plan(rng, tier, idx, opts):
             Ts = max(Ts, 3e-8)
     else:
         nt = rng.randint(1, 8)
-        maxd = rng.choice([3, 6, 12, 30]) * Ts
+        maxd = rng.choice([0.4, 0.95, 3, 3, 6, 12, 30]) * Ts    # 0.4: every tap collapses onto delay 0; 0.95: the last one may round up to 1
         delays = sorted(rng.uniform(0, maxd) for _ in range(nt))
         if rng.random() < 0.5:
             delays[0] = 0.0
         if nt >= 2 and rng.random() < 0.4:                       # force colliding delays after discretisation
             delays[1] = delays[0] + 0.2 * Ts
+            if nt >= 3 and rng.random() < 0.5:
+                delays[2] = delays[0] + 0.3 * Ts                 # three taps on one sample
             delays.sort()
         powers = [-rng.uniform(0, 30) for _ in range(nt)]
         profile = {"delays": delays, "powers_dB": powers}
